@@ -25,7 +25,8 @@ SPEC = {
 }
 
 KNOWN15 = "C14-more-than-15-arguments"
-TXK = {"pay": 1, "axfer": 4, "appl": 6, "acfg": 3, "txn": None}
+TXK = {"pay": 1, "axfer": 4, "appl": 6, "acfg": 3, "afrz": 5, "keyreg": 2, "txn": None}
+ODD_WIDTHS = {"uint24": 32, "uint40": 64, "uint48": 64, "uint56": 64}  # ARC-4 widths PyTeal has no type for -> the next wider PyTeal uint
 
 
 def plan(tier, seed):
@@ -53,7 +54,7 @@ def gen_call(rng, allow_over15=False):
         elif k < .6:
             kinds.append(abigen.boundary_shape(rng) if rng.random() < .4 else "(string,bool,bool,bool,bool,bool,bool,bool,bool,string)")
         else:
-            kinds.append(rng.choice(["uint64", "bool", "string", "uint8", "address", "byte[]", "uint16", "(uint64,string)", "bool[3]"]))
+            kinds.append(rng.choice(["uint64", "bool", "string", "uint8", "address", "byte[]", "uint16", "(uint64,string)", "bool[3]"] + (list(ODD_WIDTHS) if rng.random() < .15 else [])))
     extra = {}
     if rng.random() < .6:
         extra["Fee"] = 0
@@ -78,7 +79,8 @@ def build_call(pt, case):
     for i, k in enumerate(kinds):
         if k in TXK:
             te = TXK[k] or rng.choice([1, 4])
-            tenum = {1: pt.TxnType.Payment, 4: pt.TxnType.AssetTransfer, 6: pt.TxnType.ApplicationCall, 3: pt.TxnType.AssetConfig}[te]
+            tenum = {1: pt.TxnType.Payment, 4: pt.TxnType.AssetTransfer, 6: pt.TxnType.ApplicationCall, 3: pt.TxnType.AssetConfig,
+                     5: pt.TxnType.AssetFreeze, 2: pt.TxnType.KeyRegistration}[te]
             amt = rng.randrange(1, 1000)
             d = {pt.TxnField.type_enum: tenum, pt.TxnField.fee: pt.Int(0)}
             exp = {"TypeEnum": te, "Fee": 0}
@@ -93,6 +95,13 @@ def build_call(pt, case):
             elif te == 6:
                 d[pt.TxnField.application_id] = pt.Int(amt)
                 exp.update(ApplicationID=amt)
+            elif te == 5:
+                d[pt.TxnField.freeze_asset] = pt.Int(amt)
+                d[pt.TxnField.freeze_asset_frozen] = pt.Int(1)
+                exp.update(FreezeAsset=amt, FreezeAssetFrozen=1)
+            elif te == 2:
+                d[pt.TxnField.vote_first] = pt.Int(amt)
+                exp.update(VoteFirst=amt)
             else:
                 d[pt.TxnField.config_asset_total] = pt.Int(amt)
                 exp.update(ConfigAssetTotal=amt)
@@ -115,6 +124,15 @@ def build_call(pt, case):
                 a = rng.randrange(1000, 2000)
                 args.append(pt.Int(a))
                 given.append(("application", a))
+        elif k in ODD_WIDTHS:
+            # a width ARC-4 has and PyTeal does not: the value is given in the next wider PyTeal uint; the call is refused, or
+            # else the callee must find the value in exactly width/8 bytes
+            st = sabi.ABIType.from_string(k)
+            v = rng.choice([0, 1, 2 ** (int(k[4:]) - 1), 2 ** int(k[4:]) - 1, rng.randrange(2 ** int(k[4:]))])
+            inst = abigen.spec_of(pt, sabi.ABIType.from_string("uint%d" % ODD_WIDTHS[k])).new_instance()
+            pre.append(inst.set(v))
+            args.append(inst)
+            given.append(("plain", st.encode(v)))
         else:
             st = sabi.ABIType.from_string(k)
             v = abigen.rand_val(rng, st)
@@ -225,6 +243,14 @@ def check_call(pt, acc, case):
         acc.extra.setdefault("rejections", [])
         if len(acc.extra["rejections"]) < 6:
             acc.extra["rejections"].append(str(e)[:140])
+        if "Too many slots" in str(e):
+            acc.counters["dropped_resource_limit_slots"] += 1
+        elif any(k in ODD_WIDTHS for k in kinds):
+            acc.counters["unsupported_width_refused"] += 1
+        elif nplain <= 15:
+            # every argument was built from the signature's own types: the call fits and must be accepted
+            acc.evaluations += 1
+            acc.violation("wellformed_call_rejected", case, "a call whose arguments fit %s was rejected: %s: %s" % ("callee(%s)%s" % (",".join(kinds), case["ret"]), type(e).__name__, str(e)[:200]))
         return
     acc.evaluations += 1
     ctx = avm.Ctx(group=[{"Sender": b"\x53" * 32, "TypeEnum": 6, "ApplicationID": 77}])
@@ -289,7 +315,7 @@ def must_reject(pt, acc, rng):
     abi = pt.abi
     acc.evaluations += 1
     kind = rng.choice(["width", "arity_more", "arity_less", "elem", "static_len", "txn_type", "count", "txn_not_dict", "dyn_vs_static", "nested_arity", "bool_len",
-                       "static_for_dyn", "address_for_bytes", "staticbytes_for_bytes", "static_for_dyn_in_tuple", "static_for_string"])
+                       "static_for_dyn", "address_for_bytes", "staticbytes_for_bytes", "static_for_dyn_in_tuple", "static_for_string", "txn_type_pair", "txn_type_pair"])
     x64, x32, s = abi.Uint64(), abi.Uint32(), abi.String()
     t2 = abi.make(abi.Tuple2[abi.Uint64, abi.Bool])
     t3 = abi.make(abi.Tuple3[abi.Uint64, abi.Bool, abi.Uint8])
@@ -301,6 +327,7 @@ def must_reject(pt, acc, rng):
         "elem": ("m(uint32[])void", [abi.make(abi.DynamicArray[abi.Uint64])]),
         "static_len": ("m(byte[7])void", [abi.make(abi.StaticArray[abi.Byte, __import__("typing").Literal[8]])]),
         "txn_type": ("m(axfer)void", [pay]),
+        "txn_type_pair": None,
         "count": ("m(uint64,uint64)void", [x64]),
         "txn_not_dict": ("m(pay)void", [x64]),
         "dyn_vs_static": ("m(uint64[2])void", [abi.make(abi.DynamicArray[abi.Uint64])]),
@@ -313,6 +340,12 @@ def must_reject(pt, acc, rng):
         "static_for_string": ("m(string)void", [abi.make(abi.StaticArray[abi.Byte, __import__("typing").Literal[5]])]),
         "bool_len": ("m(bool[16])void", [abi.make(abi.StaticArray[abi.Bool, __import__("typing").Literal[9]])]),
     }
+    if kind == "txn_type_pair":
+        names = {"pay": pt.TxnType.Payment, "axfer": pt.TxnType.AssetTransfer, "afrz": pt.TxnType.AssetFreeze, "acfg": pt.TxnType.AssetConfig,
+                 "keyreg": pt.TxnType.KeyRegistration, "appl": pt.TxnType.ApplicationCall}
+        a, b = rng.sample(sorted(names), 2)
+        cases[kind] = ("m(%s)void" % a, [{pt.TxnField.type_enum: names[b], pt.TxnField.fee: pt.Int(0)}])
+        kind_detail = "%s given where %s is declared" % (b, a)
     sig, args = cases[kind]
     try:
         pt.InnerTxnBuilder.ExecuteMethodCall(app_id=pt.Int(1), method_signature=sig, args=args)
